@@ -1,0 +1,129 @@
+// Copyright (C) The Arvados Authors. All rights reserved.
+//
+// SPDX-License-Identifier: Apache-2.0
+
+//go:build verif
+// +build verif
+
+// Machine-checked contracts (read by /verif/bin/govc; never compiled into
+// normal builds).  See /verif/DESIGN.md section 3 for the language.
+
+package keepclient
+
+// retryable: the transient-failure classes of property C11.
+//@ spec func retryable(code int) bool = code == 0 || code == 408 || code == 429 || (code >= 500 && code != 503)
+
+//@ pure DebugPrintf
+
+// Helpers used by putReplicas whose only relevant property here is their frame
+// (service discovery does network I/O and is outside the engine's reach).
+//@ func KeepClient.getRequestID trusted
+//@   modifies nothing
+//@ func KeepClient.WritableLocalRoots trusted
+//@   modifies KeepClient.localRoots KeepClient.writableLocalRoots KeepClient.gatewayRoots KeepClient.replicasPerService KeepClient.foundNonDiskSvc KeepClient.disableDiscovery
+//@   ensures result == kc.writableLocalRoots
+
+//@ func KeepClient.putReplicas property C11 safety -bounds
+//@   requires kc.Retries >= 0
+//@   ensures err == nil ==> replicas >= old(kc.Want_replicas)
+//@   ensures err != nil ==> replicas < old(kc.Want_replicas)
+//@   calls getReader#*: pure
+//@   calls NewRootSorter#1: requires $0 == kc.writableLocalRoots && $1 == hash
+//@   ghost code int = 0
+//@   ghost len0 int = 0
+//@   ghost done0 int = 0
+//@   ghost stored0 int = 0
+//@   ghost resp0 string = ""
+//@   ghost loc0 string = ""
+//@   at assign status#1: set code = status.statusCode
+//@   at assign status#1: set len0 = len(retryServers)
+//@   at assign status#1: set done0 = replicasDone
+//@   at assign status#1: set stored0 = status.replicasStored
+//@   at assign status#1: set resp0 = status.response
+//@   at assign status#1: set loc0 = locator
+//@   at loop 2 back: assert len(retryServers) == len0 + ite(retryable(code), 1, 0)
+//@   at loop 2 back: assert code != 200 ==> replicasDone == done0 && locator == loc0
+//@   at loop 2 back: assert code == 200 ==> replicasDone == done0 + stored0 && locator == resp0
+//@   loop 1: invariant replicasDone + replicasTodo == old(kc.Want_replicas) && active >= 0 && retriesRemaining >= 0
+//@   loop 1: invariant retriesRemaining > 0 || replicasTodo <= 0
+//@   loop 2: invariant replicasDone + replicasTodo == old(kc.Want_replicas) && active >= 0 && retriesRemaining >= 0
+//@   loop 3: invariant replicasDone + replicasTodo == old(kc.Want_replicas) && active >= 0 && retriesRemaining >= 0 && replicasTodo > 0
+
+// ---------------------------------------------------------------- C12: probe order
+
+//@ func Md5String property C12 pure
+//@   ensures result == md5hex(s)
+
+// weightOf: the rendezvous weight of a service for a block, from the property
+// statement: md5 of the hash followed by the last 15 characters of a
+// 27-character uuid (the whole uuid otherwise).
+//@ spec func weightOf(hash string, uuid string) string = ite(len(uuid) == 27, md5hex(hash + uuid[12:]), md5hex(hash + uuid))
+
+//@ func RootSorter.getWeight property C12
+//@   modifies nothing
+//@   ensures result == weightOf(hash, uuid)
+
+//@ func RootSorter.Len property C12
+//@   modifies nothing
+//@   ensures result == len(rs.order)
+
+//@ func RootSorter.Less property C12
+//@   requires 0 <= i && i < len(rs.order) && 0 <= j && j < len(rs.order)
+//@   requires forall k int :: 0 <= k && k < len(rs.order) ==> 0 <= rs.order[k] && rs.order[k] < len(rs.weight)
+//@   modifies nothing
+//@   ensures result == (rs.weight[rs.order[j]] < rs.weight[rs.order[i]])
+
+//@ func RootSorter.Swap property C12
+//@   requires 0 <= i && i < len(rs.order) && 0 <= j && j < len(rs.order)
+//@   modifies mem:int
+//@   ensures rs.order[i] == old(rs.order[j]) && rs.order[j] == old(rs.order[i])
+//@   ensures forall k int :: 0 <= k && k < len(rs.order) && k != i && k != j ==> rs.order[k] == old(rs.order[k])
+
+//@ func NewRootSorter property C12,C11
+//@   modifies RootSorter.root RootSorter.weight RootSorter.order mem:string mem:int
+//@   ensures len(result.order) == len(serviceRoots) && len(result.root) == len(serviceRoots) && len(result.weight) == len(serviceRoots)
+//@   ensures forall a int :: 0 <= a && a < len(serviceRoots) ==> 0 <= result.order[a] && result.order[a] < len(serviceRoots)
+//@   ensures forall a, b int :: 0 <= a && a < b && b < len(serviceRoots) ==> result.order[a] != result.order[b]
+//@   ensures forall a, b int :: 0 <= a && a < b && b < len(serviceRoots) ==> result.weight[result.order[a]] >= result.weight[result.order[b]]
+//@   ensures forall k int :: 0 <= k && k < len(serviceRoots) ==> result.root[k] == serviceRoots[mapkey(serviceRoots, k)] && result.weight[k] == weightOf(hash, mapkey(serviceRoots, k))
+//@   loop 1: invariant i == $i && hash == old(hash) && serviceRoots == old(serviceRoots)
+//@   loop 1: invariant len(rs.order) == len(serviceRoots) && len(rs.root) == len(serviceRoots) && len(rs.weight) == len(serviceRoots)
+//@   loop 1: invariant forall k int :: 0 <= k && k < i ==> rs.order[k] == k && rs.root[k] == serviceRoots[mapkey(serviceRoots, k)] && rs.weight[k] == weightOf(hash, mapkey(serviceRoots, k))
+//@   # sort.Sort: documented behaviour (a permutation obtained by Swap calls, ordered by Less), given the
+//@   # verified contracts of RootSorter.Less/Swap/Len above.  This clause is an assumption about package sort.
+//@   calls sort.Sort#1: ensures forall a int :: 0 <= a && a < len(rs.order) ==> 0 <= rs.order[a] && rs.order[a] < len(rs.order)
+//@   calls sort.Sort#1: ensures forall a, b int :: 0 <= a && a < b && b < len(rs.order) ==> rs.order[a] != rs.order[b]
+//@   calls sort.Sort#1: ensures forall a, b int :: 0 <= a && a < b && b < len(rs.order) ==> !(rs.weight[rs.order[a]] < rs.weight[rs.order[b]])
+
+//@ func RootSorter.GetSortedRoots property C12,C11
+//@   requires forall k int :: 0 <= k && k < len(rs.order) ==> 0 <= rs.order[k] && rs.order[k] < len(rs.root)
+//@   modifies mem:string
+//@   ensures len(result) == len(rs.order)
+//@   ensures forall k int :: 0 <= k && k < len(rs.order) ==> result[k] == old(rs.root[rs.order[k]])
+//@   loop 1: invariant len(sorted) == len(rs.order) && rs == old(rs) && len(sorted) == $n
+//@   loop 1: invariant forall k int :: 0 <= k && k < $i ==> sorted[k] == old(rs.root[rs.order[k]])
+//@   loop 1: invariant forall k int :: 0 <= k && k < len(rs.root) ==> rs.root[k] == old(rs.root[k])
+
+//@ func KeepClient.GatewayRoots trusted
+//@   modifies KeepClient.localRoots KeepClient.writableLocalRoots KeepClient.gatewayRoots KeepClient.replicasPerService KeepClient.foundNonDiskSvc KeepClient.disableDiscovery
+//@   ensures result == kc.gatewayRoots
+//@ func KeepClient.LocalRoots trusted
+//@   modifies KeepClient.localRoots KeepClient.writableLocalRoots KeepClient.gatewayRoots KeepClient.replicasPerService KeepClient.foundNonDiskSvc KeepClient.disableDiscovery
+//@   ensures result == kc.localRoots
+
+// getSortedRoots: every "+"-separated part of the locator is examined; a part
+// contributes exactly when it is a usable hint (K@ + 5 characters, or K@ + a
+// 27-character uuid known as a gateway); the rendezvous order of the local
+// roots for locator[0:32] is appended after all hints.
+//@ func KeepClient.getSortedRoots property C12 safety -bounds
+//@   requires len(locator) >= 32
+//@   ghost len0 int = 0
+//@   ghost h0 string = ""
+//@   at assign hint#1: set len0 = len(found)
+//@   at assign hint#1: set h0 = hint
+//@   loop 1: exhaustive
+//@   at loop 1 back: assert len(h0) == 7 && h0[0:2] == "K@" ==> len(found) == len0 + 1 && found[len0] == "https://keep." + h0[2:] + ".arvadosapi.com"
+//@   at loop 1 back: assert len(h0) == 29 && h0[0:2] == "K@" ==> len(found) == len0 + ite(has(kc.gatewayRoots, h0[2:]), 1, 0) && (has(kc.gatewayRoots, h0[2:]) ==> found[len0] == kc.gatewayRoots[h0[2:]])
+//@   at loop 1 back: assert !(len(h0) == 7 || len(h0) == 29) || h0[0:2] != "K@" ==> len(found) == len0
+//@   calls NewRootSorter#1: requires $1 == locator[0:32] && $0 == kc.localRoots
+//@   calls append#3: requires $0 == found
